@@ -1,6 +1,7 @@
 #!/venv/bin/python
 """Writes floors.json: per property the minimum number of decided (non-unknown) obligations, 70% of what the committed
-tree yields today.  Below the floor the run ends with ANALYSIS-ERROR / exit 2 (the analysis no longer applies)."""
+tree yields today, plus the list of obligations confirmed (discharged) on it.  A confirmed obligation that a later tree turns into
+`unknown` (the construct is still there but no longer in a shape the checker recognises) also ends the run with exit 2.  Below the floor the run ends with ANALYSIS-ERROR / exit 2 (the analysis no longer applies)."""
 import json, os, sys
 sys.path.insert(0, os.path.dirname(os.path.dirname(os.path.abspath(__file__))))
 from engine.main import run_property
@@ -11,6 +12,7 @@ for i in range(1, 21):
     pid = f"C{i:02d}"
     ctx = run_property(pid, "quick", m)
     decided = sum(1 for o in ctx.obs if o.status != "unknown")
-    out[pid] = {"min_decided": int(decided * 0.7), "decided_at_commit": decided, "obligations_at_commit": len(ctx.obs)}
+    out[pid] = {"min_decided": int(decided * 0.7), "decided_at_commit": decided, "obligations_at_commit": len(ctx.obs),
+                "confirmed": sorted([list(o.key) for o in ctx.obs if o.status == "discharged"])}
 json.dump(out, open(os.path.join(os.path.dirname(os.path.dirname(os.path.abspath(__file__))), "floors.json"), "w"), indent=1)
 print({k: v["min_decided"] for k, v in out.items()})
